@@ -1,6 +1,7 @@
 package ledger
 
 import (
+	"bytes"
 	"fmt"
 	"math/big"
 	"sort"
@@ -35,10 +36,26 @@ func (w *world) actInject(t *rapid.T) {
 	}
 	var txn coin.Transaction
 	class := "known"
-	if len(w.known) > 0 && rapid.IntRange(0, 4).Draw(t, "reinject") == 0 {
+	// pooled transactions whose stored validity flag is out of date on dst (the chain moved on since they were judged):
+	// sending one again must bring the flag up to date, exactly as the model's re-verification does
+	var stale []coin.Transaction
+	for _, h := range sortedPoolHashes(dst.m) {
+		e := dst.m.Pool[h]
+		ok, _ := dst.m.HardSingle(&e.Txn)
+		if ok {
+			if ok, _ = dst.m.SoftAt(&e.Txn, dst.m.Cfg.Unconfirmed); ok != e.Valid {
+				stale = append(stale, e.Txn)
+			}
+		}
+	}
+	if len(stale) > 0 && rapid.IntRange(0, 3).Draw(t, "resend_stale") != 1 {
+		txn = stale[rapid.IntRange(0, len(stale)-1).Draw(t, "which_stale")]
+		class = "known_with_stale_flag"
+		w.stats["resent_pooled_txn_with_stale_flag"]++
+	} else if len(w.known) > 0 && rapid.IntRange(0, 4).Draw(t, "reinject") == 0 {
 		txn = w.known[rapid.IntRange(0, len(w.known)-1).Draw(t, "which")]
 	} else {
-		p := w.buildTxn(t, src.m, rapid.SampledFrom(txnClasses).Draw(t, "class"))
+		p := w.buildTxn(t, src.m, rapid.SampledFrom(append(append([]string{}, txnClasses...), w.moreClasses...)).Draw(t, "class"))
 		if p == nil {
 			t.Skip("nothing spendable")
 		}
@@ -435,8 +452,8 @@ func (w *world) actDeliver(t *rapid.T) {
 // crafted blocks
 
 var headerMutations = []string{"none", "none", "version", "time_le_head", "time_eq_head", "seq_same", "seq_plus2", "seq_zero", "seq_max", "fee", "prev_random", "prev_zero", "prev_grandparent",
-	"bodyhash", "uxhash", "sig_flip", "other_key", "unsigned", "genesis_again"}
-var bodyMutations = []string{"drop_txn", "dup_txn", "double_spend_in_block", "spend_created_in_block", "spend_spent", "invalid_txn", "reorder", "empty", "create_coins", "destroy_coins", "create_coins", "destroy_coins"}
+	"bodyhash", "bodyhash_zero", "uxhash", "uxhash_zero", "uxhash_of_parent", "uxhash_random", "sig_flip", "other_key", "unsigned", "genesis_again"}
+var bodyMutations = []string{"drop_txn", "dup_txn", "double_spend_in_block", "spend_created_in_block", "spend_spent", "invalid_txn", "reorder", "empty", "create_coins", "destroy_coins", "create_coins", "destroy_coins", "wrap_coins"}
 
 // validTxnsFor returns 1-2 fresh transactions that the model accepts in a block on top of its head.
 func (w *world) validTxnsFor(t *rapid.T, m *ref.Model, n int) []coin.Transaction {
@@ -586,6 +603,22 @@ func (w *world) actCraft(t *rapid.T) {
 			}
 			signTxn(&txns[i], owners)
 			w.stats["crafted_block_with_unbalanced_coins"]++
+		case "wrap_coins":
+			// as create_coins, but by 2^64: two extra outputs of 2^63 coins each (at drawn positions, to addresses that keep
+			// every output of the transaction distinct), so that the 64-bit sum of the outputs wraps round to the balanced total
+			i := rapid.IntRange(0, len(txns)-1).Draw(t, "which_txn")
+			for x := 0; x < 2; x++ {
+				at := rapid.IntRange(0, len(txns[i].Out)).Draw(t, "wrap_at")
+				extra := coin.TransactionOutput{Address: userKeys[(x+1)%len(userKeys)].Addr, Coins: 1 << 63}
+				txns[i].Out = append(txns[i].Out[:at], append([]coin.TransactionOutput{extra}, txns[i].Out[at:]...)...)
+			}
+			var owners []gen.Key
+			for _, in := range txns[i].In {
+				owners = append(owners, keyByAddr[m.Utxo[in].Body.Address])
+			}
+			signTxn(&txns[i], owners)
+			w.stats["crafted_block_with_unbalanced_coins"]++
+			w.stats["crafted_block_with_output_coins_wrapping_2^64"]++
 		case "reorder":
 			if len(txns) >= 2 {
 				txns[0], txns[1] = txns[1], txns[0]
@@ -636,6 +669,14 @@ func (w *world) actCraft(t *rapid.T) {
 			b.Head.BodyHash[rapid.IntRange(0, 31).Draw(t, "byte")] ^= 1
 		case "uxhash":
 			b.Head.UxHash[rapid.IntRange(0, 31).Draw(t, "byte")] ^= 1
+		case "uxhash_zero": // the value the genesis block carries
+			b.Head.UxHash = cipher.SHA256{}
+		case "uxhash_of_parent":
+			b.Head.UxHash = head.UxHash
+		case "uxhash_random":
+			b.Head.UxHash = gen.NonNullSHA(t, "ux")
+		case "bodyhash_zero":
+			b.Head.BodyHash = cipher.SHA256{}
 		case "other_key":
 			signer = otherKey
 		case "unsigned":
@@ -804,4 +845,13 @@ func hashesHex(hs []cipher.SHA256) []string {
 		out[i] = shortHash(hs[i])
 	}
 	return out
+}
+
+func sortedPoolHashes(m *ref.Model) []cipher.SHA256 {
+	hs := make([]cipher.SHA256, 0, len(m.Pool))
+	for h := range m.Pool {
+		hs = append(hs, h)
+	}
+	sort.Slice(hs, func(i, j int) bool { return bytes.Compare(hs[i][:], hs[j][:]) < 0 })
+	return hs
 }
